@@ -12,6 +12,10 @@ NA   == Nm("NA", A(INT))
 NP   == Nm("NP", P(INT))
 NSl  == Nm("NSl", S(INT))
 NM   == Nm("NM", M(STR, INT))
+\* unnamed struct types with a struct tag / an embedded (tagged) field: the generator has to spell such a type out
+\* (make([]struct{...})), and tags and embedding are part of type identity
+TAGGED == St(<<[n |-> "F", t |-> INT, tag |-> "json:\"f\""]>>)
+EMBTAG == St(<<[n |-> "NSt", t |-> NSt, tag |-> "json:\"meta\"", emb |-> TRUE]>>)
 ANY  == If("any")
 ERR  == If("error")
 IFM  == If("I")
@@ -49,7 +53,7 @@ LeavesQuick == {INT, STR, B("int64"), B("bool"), NI, NSt, NSt2, NA, ANY, Fn, St(
 LeavesFull  == AllBasics \cup {NI, NI2, NS, NSt, NSt2, NA, NP, NSl, NM, ANY, ERR, IFM, Fn, Ch, St(<<>>)}
 LeavesDeep  == {INT, STR, NI, NSt, NSt2, NA, ANY}
 LeavesTiny  == {INT, STR, NI, NSt}
-LeavesVal   == LeavesQuick \cup {NSl, NM, NP, NS}
+LeavesVal   == LeavesQuick \cup {NSl, NM, NP, NS, TAGGED, EMBTAG}
 LeavesPair  == {INT, NI, NSt, NSt2, NSl, S(INT), ANY}
 LeavesMini  == {INT, NSt, NSt2}
 LeavesPtr   == {INT, NSt, NSt2, P(INT), P(P(INT)), P(NSt), P(NSt2)}
